@@ -204,3 +204,22 @@ def test_F20_column_assigned_from_another_column_is_its_own_data():
         assert other.tolist() == [11, 12, 13, 10], how
         cf.b[0] = -1
         assert other[0] == 11
+
+
+def test_F21_copyrows_with_a_slice_is_a_copy():
+    from ImageD11 import columnfile as C
+    cf = C.colfile_from_dict({"a": np.arange(6.0), "b": np.arange(6.0) * 10})
+    part = cf.copyrows(slice(1, 4))
+    assert part.nrows == 3 and part.a.tolist() == [1, 2, 3]
+    assert not np.shares_memory(part.a, cf.a) and not np.shares_memory(part.b, cf.b)
+    part.a[0] = -7
+    assert cf.a[1] == 1
+
+
+def test_F22_reorder_by_a_column_of_the_table():
+    from ImageD11 import columnfile as C
+    cf = C.colfile_from_dict({"a": np.array([1, 2, 3, 0]), "b": np.array([10.0, 11, 12, 13]), "i": np.arange(4.0)})
+    cf.reorder(cf.a)
+    assert cf.a.tolist() == [2, 3, 0, 1]
+    assert cf.b.tolist() == [11, 12, 13, 10]
+    assert cf.i.tolist() == [1, 2, 3, 0]
